@@ -446,3 +446,49 @@ Definition cclone_unguarded (st : cstate) : cstate :=
   | Some _ => mkC (c_opts st) (c_has st) true (c_own st)
   | None => cclone st
   end.
+
+(* ---------- Stop in two steps: the order of one exchange's bytes across Stop ----------
+   Stop is not atomic: it takes qmu, marks the queue (stopped, nil task) and, when a drainer is
+   running, keeps qmu until the drainer has written everything queued and returned.  DumpTo needs
+   qmu: while Stop waits a DumpTo of an exchange still in flight is blocked (here: the op does not
+   execute).  [t_lock]: qmu is held by a waiting Stop.  run_tops also returns the DumpTo calls that
+   did execute, in order. *)
+Inductive top := TDump (t : task) | TDrain | TStart | TMark.
+
+Record tstate := mkT { t_running : bool; t_stopped : bool; t_lock : bool;
+                       t_q : list (option task); t_out : list task }.
+
+Definition tdrain (st : tstate) : tstate :=
+  if t_running st then
+    match t_q st with
+    | Some t :: q => mkT true (t_stopped st) (t_lock st) q (t_out st ++ [t])
+    | None :: q => mkT false (t_stopped st) false q (t_out st)   (* Start returns; the waiting Stop returns *)
+    | [] => st
+    end
+  else st.
+
+(* [keep]: does Stop keep qmu while it waits for the drain?  true = the code; false = a Stop that
+   unlocks right after marking the queue *)
+Definition tstep (keep async : bool) (x : tstate * list task) (op : top) : tstate * list task :=
+  let '(st, ex) := x in
+  match op with
+  | TDump t =>
+      if t_lock st then (st, ex) else
+      if async && t_running st && negb (t_stopped st)
+      then (mkT (t_running st) (t_stopped st) false (t_q st ++ [Some t]) (t_out st), ex ++ [t])
+      else (mkT (t_running st) (t_stopped st) false (t_q st) (t_out st ++ [t]), ex ++ [t])
+  | TDrain => (tdrain st, ex)
+  | TStart => (mkT true (t_stopped st) (t_lock st) (t_q st) (t_out st), ex)
+  | TMark => (mkT (t_running st) true (keep && t_running st) (t_q st ++ [None]) (t_out st), ex)
+  end.
+
+Definition t0 : tstate := mkT false false false [] [].
+Definition run_tops (keep async : bool) (ops : list top) : tstate * list task :=
+  fold_left (tstep keep async) ops (t0, []).
+
+Fixpoint no_task_after_mark (q : list (option task)) : bool :=
+  match q with
+  | [] => true
+  | None :: r => match tasks_of r with [] => no_task_after_mark r | _ => false end
+  | Some _ :: r => no_task_after_mark r
+  end.
